@@ -74,7 +74,7 @@ func resubmitTx(h *Hist, id string) *TxSpec {
 
 func runC09(rc *sim.RunCtx) {
 	h, err := NewHist(rc, HistOpts{Profiles: []string{"core", "core", "presence"}, MinTx: 2, MaxTx: 8, Capture: true,
-		DevKinds: []string{"direct", "direct", "direct", "gnmi-proto", "gnmi-json", "gnmi-json_ietf"},
+		DevKinds: []string{"direct", "direct", "direct", "gnmi-proto", "gnmi-json", "gnmi-json_ietf", "netconf", "netconf-running"},
 		Sync:     &config.Sync{Validate: true, Buffer: 64, WriteWorkers: 1, Config: []*config.SyncProtocol{{Name: "cfg", Protocol: "gnmi", Mode: "on-change"}}},
 		Oracles:  map[string]bool{"C01": true, "C02": true}})
 	if err != nil {
